@@ -375,8 +375,11 @@ def per_instance_parameters(ctx, rule="C12.R12"):
 
     n = 0
     for cname, cnode in sorted(classes.items()):
-        fns = class_functions(cnode)
-        if "potential" not in fns:
+        fns = {}
+        for k in reversed(mro(cname)):          # methods along the module-local MRO, the class's own last (a law derived from another law)
+            fns.update(class_functions(classes[k]))
+        pot = fns.get("potential")
+        if pot is None or any(isinstance(d, ast.Name) and d.id == "abstractmethod" or isinstance(d, ast.Attribute) and d.attr == "abstractmethod" for d in pot.decorator_list):
             continue
         shared = {}
         for k in mro(cname):
